@@ -223,10 +223,113 @@ def hoist(repo, rel, outer, prefix):
             + text[s:e] + "\n// ---- end of hoisted item ----")
 
 
+ITEM_START = re.compile(r"(?:pub(?:\([^)]*\))?\s+)?(?:use|fn|struct|enum|impl|const|static|type|trait|mod|unsafe\s+impl|unsafe\s+fn)\b")
+
+
+def hoist_all(repo, rel, outer):
+    """every item declared at the top level of the body of fn `outer` (use / fn / struct / enum / impl /
+    const / type / trait, with the attribute lines directly above it), in source order, verbatim"""
+    p = repo / rel
+    if not p.exists():
+        raise Undecided(f"anchor lost: file {rel}")
+    text = p.read_text()
+    heads = [m for m in re.finditer(r"^[ \t]*(?:pub(?:\([^)]*\))?\s+)?fn " + re.escape(outer) + r"\b", text, re.M)]
+    if len(heads) != 1:
+        raise Undecided(f"anchor lost: fn {outer} occurs {len(heads)} times in {rel}")
+    i = heads[0].end()
+    while i < len(text) and text[i] != "{":
+        j = _skip_noncode(text, i)
+        if j != i:
+            i = j
+            continue
+        if text[i] == ";":
+            raise Undecided(f"anchor lost: fn {outer} in {rel} has no body")
+        i += 1
+    end = _balanced_end(text, i)
+    lo, hi = i + 1, end - 1
+    out = []
+    pos = lo
+    at_line_start = True
+    pending_attr = None  # start of attribute lines directly above
+    while pos < hi:
+        if at_line_start:
+            m = re.match(r"[ \t]*", text[pos:hi])
+            q = pos + len(m.group(0))
+            if text.startswith("#[", q):
+                if pending_attr is None:
+                    pending_attr = pos
+                # skip the attribute (balanced brackets)
+                depth, k = 0, q + 1
+                while k < hi:
+                    if text[k] == "[":
+                        depth += 1
+                    elif text[k] == "]":
+                        depth -= 1
+                        if depth == 0:
+                            break
+                    k += 1
+                pos = k + 1
+                at_line_start = False
+                continue
+            if ITEM_START.match(text, q):
+                # find the end of the item
+                k = q
+                item_end = None
+                is_use = text.startswith("use ", q)
+                while k < hi:
+                    j = _skip_noncode(text, k)
+                    if j != k:
+                        k = j
+                        continue
+                    if text[k] == ";":
+                        item_end = k + 1
+                        break
+                    if text[k] == "{":
+                        e = _balanced_end(text, k)
+                        if is_use:
+                            k = e
+                            continue
+                        item_end = e
+                        break
+                    k += 1
+                if item_end is None:
+                    raise Undecided(f"anchor lost: an item of fn {outer} in {rel} does not end inside it")
+                start = pending_attr if pending_attr is not None else pos
+                line = text.count("\n", 0, start) + 1
+                out.append(f"// ---- hoisted verbatim from {rel}:{line} (inside fn {outer}) ----\n" + text[start:item_end].rstrip())
+                pending_attr = None
+                pos = item_end
+                at_line_start = False
+                continue
+            if q < hi and text[q] not in "\n" and not text.startswith("//", q):
+                pending_attr = None
+        j = _skip_noncode(text, pos)
+        if j != pos:
+            at_line_start = text[pos:j].endswith("\n")
+            pos = j
+            continue
+        c = text[pos]
+        if c == "{":
+            pos = _balanced_end(text, pos)  # a statement block / closure body: not scanned for items
+            at_line_start = False
+            continue
+        at_line_start = (c == "\n")
+        pos += 1
+    if not out:
+        raise Undecided(f"anchor lost: fn {outer} in {rel} declares no nested items")
+    return "\n".join(out) + f"\n// ---- end of items hoisted from fn {outer} ----"
+
+
 def expand_hoists(src, repo):
     def rep(m):
         parts = [x.strip() for x in m.group(1).split("|")]
         if len(parts) != 3:
             raise Undecided(f"bad //@hoist directive: {m.group(0)!r}")
         return hoist(repo, parts[0], parts[1], parts[2])
+    def rep_all(m):
+        parts = [x.strip() for x in m.group(1).split("|")]
+        if len(parts) != 2:
+            raise Undecided(f"bad //@hoist-all directive: {m.group(0)!r}")
+        return hoist_all(repo, parts[0], parts[1])
+    src = re.sub(r"^//@hoist-all (.*)$", rep_all, src, flags=re.M)
     return re.sub(r"^//@hoist (.*)$", rep, src, flags=re.M)
